@@ -455,8 +455,25 @@ func (r *collection) Remove(t reflect.Type) {
 	r.mu.Lock()
 	defer r.mu.Unlock()
 
-	typeKey := TypeKey{Type: t}
-	delete(r.services, typeKey)
+	r.removeLocked(TypeKey{Type: t})
+}
+
+// removeLocked removes the service registered under key from every view of
+// the registry, so that later builds do not see it. The caller holds r.mu.
+func (r *collection) removeLocked(key TypeKey) {
+	descriptor, ok := r.services[key]
+	if !ok {
+		return
+	}
+
+	delete(r.services, key)
+
+	for i, d := range r.allDescriptors {
+		if d == descriptor {
+			r.allDescriptors = append(r.allDescriptors[:i:i], r.allDescriptors[i+1:]...)
+			break
+		}
+	}
 }
 
 // RemoveKeyed removes a specific keyed service
@@ -468,8 +485,7 @@ func (r *collection) RemoveKeyed(t reflect.Type, key any) {
 	r.mu.Lock()
 	defer r.mu.Unlock()
 
-	typeKey := TypeKey{Type: t, Key: key}
-	delete(r.services, typeKey)
+	r.removeLocked(TypeKey{Type: t, Key: key})
 }
 
 // ToSlice returns a copy of all registered service descriptors
